@@ -315,16 +315,18 @@ func (r *Run) c11GraphLookups() {
 			name+" can pass over a control node without having compared all of its "+side+" links with the id: a module wired to the node is then missing from the result although Edge/HasEdgeFromTo report the edge", skipped...)
 		// (reached) for a present node every result comes after the loop over the control nodes has run to its end
 		lk := newC11Lookup(fn, tf, nw)
-		absent := func(b *ssa.BasicBlock) bool {
-			for _, g := range Guards(b) {
+		absent := func(gs []Guard) bool {
+			for _, g := range gs {
 				if lk.absent(g) {
 					return true
 				}
 			}
 			return false
 		}
+		// (a result: per return instruction, or per edge entering a return block shared by several results - robust_c11.go, c11Results)
+		resTarget, resEdge := c11ResultTargets(absent)
 		unreached := FindPath(p, PathQuery{Fn: fn, Explored: &explored,
-			Target:    func(in ssa.Instruction) bool { return IsReturn(in) && !absent(in.Block()) },
+			Target: resTarget, TargetEdge: resEdge,
 			AvoidEdge: func(from, to *ssa.BasicBlock) bool { return from == outer.Header && !outer.Blocks[to] }})
 		r.Check(unreached == nil, "graph."+name+".control-nodes.reached", pf, "for a node that is present, no result is returned before the loop over the control nodes ran to its end",
 			name+" can return for a present node without having looked at the control nodes (for instance only nodes of one role are checked): a module wired to a sensor or an output node is missing from the successors/predecessors although the edge queries report it", unreached...)
